@@ -13,6 +13,7 @@ CONSTANTS
   AllowCtrlC = FALSE
   AllowError = FALSE
   AliveCheck = FALSE
+  NKinds = 1
 INVARIANT ProtocolOK
 PROPERTY Termination
 CHECK_DEADLOCK FALSE
